@@ -287,7 +287,42 @@ def run(ctx):
                                             "what": "debug and release builds disagree on a file set (%s: exit %s vs %s, %s)" % (
                                                 tagb, rd[tagb][0], rr[tagb][0], "files or bytes differ" if rd[tagb][0] == rr[tagb][0] else "verdict differs")})
                     break
+    # file sets every backend must refuse, in both builds: the reason lies in an included file
+    refuse_sets = []
+    if not ctx.get("replay"):
+        F = lambda path, incs, decls: {"path": path, "includes": incs, "decls": decls}
+        I = lambda n: ("iface", n, None, [("method", "m", [], False, None)])
+        S = lambda n: ("struct", n, [("uint32", 1, "x")])
+        refuse_sets = [
+            ("cycle_below_main", [F("main.idl", ["a.idl"], [I("IMain")]), F("a.idl", ["b.idl"], [S("SA")]), F("b.idl", ["a.idl"], [S("SB")])]),
+            ("self_include_below_main", [F("main.idl", ["selfish.idl"], [I("IMain")]), F("selfish.idl", ["selfish.idl"], [S("SA")])]),
+            ("long_cycle_below_main", [F("main.idl", ["x.idl", "a.idl"], [I("IMain")]), F("x.idl", [], [S("SX")]), F("a.idl", ["b.idl"], [S("SA")]),
+                                       F("b.idl", ["c.idl"], [S("SB")]), F("c.idl", ["x.idl", "a.idl"], [S("SC")])]),
+            ("cycle_reached_twice", [F("main.idl", ["a.idl", "b.idl"], [I("IMain")]), F("a.idl", ["b.idl"], [S("SA")]), F("b.idl", ["a.idl"], [S("SB")])]),
+            ("missing_below_main", [F("main.idl", ["a.idl"], [I("IMain")]), F("a.idl", ["nowhere.idl"], [S("SA")])]),
+            ("oversized_struct_in_include", [F("main.idl", ["inc.idl"], [("iface", "IMain", None, [("method", "f", [("in", "L4", None, "v")], False, None)])]),
+                                             F("inc.idl", [], [("struct", "L0", [("uint8", 65535, "a"), ("uint8", 1, "b")])] +
+                                               [("struct", "L%d" % i, [("L%d" % (i - 1), 65535, "a")]) for i in range(1, 5)])]),
+            ("oversized_struct_array_in_include", [F("main.idl", ["inc.idl"], [("iface", "IMain", None, [("method", "f", [("out", "L3", "[]", "v")], False, None)])]),
+                                                   F("inc.idl", [], [("struct", "L0", [("uint64", 65535, "a")])] +
+                                                     [("struct", "L%d" % i, [("L%d" % (i - 1), 65535, "a")]) for i in range(1, 4)])]),
+            ("duplicate_across_includes", [F("main.idl", ["a.idl", "b.idl"], [I("IMain")]), F("a.idl", [], [S("Same")]), F("b.idl", [], [S("Same")])]),
+        ]
+        for tag_, files_ in refuse_sets:
+            fs_ = {"files": files_, "main": "main.idl", "idirs": []}
+            root = os.path.join(work, "refuse", tag_)
+            mainp = gen.write_fileset(fs_, root)
+            for bname, binp in (("debug", ctx["idlc"]), ("release", rel)):
+                rr_ = p_determinism.compile_all(binp, mainp, root, root, os.path.join(root, "o_" + bname))
+                for tagb, (rc_, snap_, diag_) in rr_.items():
+                    if rc_ == 0 or snap_:
+                        res["failures"].append({"property": prop, "tag": "refuse:" + tag_, "fileset": fs_, "backend": tagb, "build": bname,
+                                                "text": "\n".join("// %s\n%s" % (f["path"], gen.render_file(f)) for f in files_),
+                                                "what": "a file set that must be refused (%s) is accepted or leaves output behind: %s build, %s, exit %s, files %s" % (
+                                                    tag_, bname, tagb, rc_, sorted(snap_)[:3])})
+                        break
     res["coverage"] = {
+        "must_refuse_sets": [t for t, _ in refuse_sets],
         "filesets_all_backends_debug_vs_release": {"sets": nsets, "differing": set_diffs},
         "evaluations": len(inputs), "distinct_nontrivial": distinct,
         "peg_model": peg_hist,
